@@ -89,6 +89,45 @@ func ruleCPDrain(c *Ctx, s *readFileShape) {
 		if !streaming {
 			continue
 		}
+		// ... and nothing else: no success return hands back (a part of) the compressed input itself, whatever the
+		// input looks like — a stored block taken straight from the payload has not been through the
+		// decompressor's own checks (lengths and their complements, the end-of-stream marker)
+		if len(fn.Params) >= 2 {
+			in := fn.Params[len(fn.Params)-1]
+			var fromInput func(v ssa.Value, d int) bool
+			fromInput = func(v ssa.Value, d int) bool {
+				if v == ssa.Value(in) {
+					return true
+				}
+				if d > 8 {
+					return false
+				}
+				switch x := v.(type) {
+				case *ssa.Slice:
+					return fromInput(x.X, d+1)
+				case *ssa.ChangeType:
+					return fromInput(x.X, d+1)
+				case *ssa.Phi:
+					for _, e := range x.Edges {
+						if fromInput(e, d+1) {
+							return true
+						}
+					}
+				}
+				return false
+			}
+			shortcut := ""
+			for _, r := range returnsOf(fn) {
+				res := resolvedResults(r)
+				if len(res) != 2 || !isNilConst(res[1]) {
+					continue
+				}
+				if fromInput(res[0], 0) {
+					shortcut = P.pos(r.Pos())
+				}
+			}
+			c.Check(shortcut == "", fnKey(fn)+"/only-the-drain", P.pos(fn.Pos()), "no success return hands back a part of the compressed input as the plaintext", "the return at "+shortcut+" hands back (a part of) the compressed input as the plaintext: that block has not been through the decompressor, so damage the decompressor would refuse is accepted")
+		}
 		key := fnKey(fn) + "/drain"
 		switch {
 		case len(pieces) > 0:
